@@ -73,6 +73,11 @@ class Baton:
             if self.pct_points is not None:
                 if self.steps in self.pct_points:
                     target = self._pick_other(tid)
+            elif self.policy.get("kind") == "focus":
+                fn = site.split(":")[1].split("@")[0] if ":" in site else ""
+                p = self.policy.get("p_in", 0.5) if fn == self.policy.get("func") else self.policy.get("p", 0.0)
+                if p and self.rng.random() < p:
+                    target = self._pick_other(tid)
             elif self.rng.random() < self.policy.get("p", 0.02):
                 target = self._pick_other(tid)
         if target is None or target == tid or target >= self.n or self.done[target]:
